@@ -444,7 +444,14 @@ func (vc *FuncVC) applyContract(s *State, cl *callee, ord int, site ssa.Instruct
 		if !en.active(vc.prop) {
 			continue
 		}
-		vc.assume(s.pc, vc.tr(e2, en.E))
+		nerr := len(vc.specErrors)
+		f := vc.tr(e2, en.E)
+		if c.Kind == "schema" && len(vc.specErrors) > nerr {
+			// a schema clause that does not apply to this instance (e.g. Len() on a functional property)
+			vc.specErrors = vc.specErrors[:nerr]
+			continue
+		}
+		vc.assume(s.pc, f)
 	}
 	vc.siteClauses(s, old, ss, siteKey, cl, res, pos)
 	return res
@@ -876,6 +883,7 @@ func (vc *FuncVC) resolveSatisfies(cl *callee) {
 	cl.ckey = cl.c.Satisfies
 	cl.c = tc
 	cl.fn = target
+	cl.sig = target.Signature // named results of the implementation are what its contract mentions
 }
 
 func mentions(x Expr, name string) bool {
